@@ -1,5 +1,5 @@
 """Which contracts decide which property."""
-from . import indexing, bases
+from . import indexing, bases, align, axes
 
 GLOBAL_ASSUMPTIONS = [
     "NumPy implements the contracts in dverif/symnp.py (validated by sampling against the installed NumPy, never proved)",
@@ -16,12 +16,17 @@ PROPERTIES = {
         "level": "proof",
         "min_obligations": 2000,
     },
-    "T": {"contracts": [bases.SetItem], "level": "proof"},
+    "T": {"contracts": [axes.AxisUnion, axes.AxisIntersection, axes.CommonAxis], "level": "proof"},
     "C03": {
         "contracts": [bases.SetItem, indexing.MaybeCastType, (bases.Accessors, r"write|put|setitem"), (bases.ItemForwarding, r"^set"),
                       (bases.GetIndices, r"^r[01]-")],
         "level": "proof",
         "min_obligations": 1500,
+    },
+    "C07": {
+        "contracts": [indexing.LocateMany, align.TakeAxis, align.ReindexAxis, (indexing.MaybeCastType, r"^[if]<-")],
+        "level": "proof",
+        "min_obligations": 500,
     },
     "C02": {
         "contracts": [indexing.LocateSlice, (indexing.LocateOne, r"^exact"), (bases.AxisLoc, r"^slice-"),
